@@ -64,10 +64,25 @@ def run(ctx):
                                   {"op": "token-line", "src": src, "token": tv})
                 reqs.append("(scan s:" + proto.enc_str(src) + ")")
                 meta.append(("scan", src, [(x.type, x.value, x.pos.line) for x in toks]))
+                # ... and the token does not disturb the line count of what follows it
+                src2 = src + " \nend_marker"
+                try:
+                    with core.time_limit(2):
+                        toks2 = Lexer(src2, "the_file").scan().tokens
+                except CklSyntaxError:
+                    continue
+                if toks2 and toks2[-1].value == "end_marker" and toks2[-1].type == "identifier" and len(toks2) == len(toks) + 1:
+                    want2 = 1 + src2.count("\n")
+                    ctx.seen(("tok-after", src2), nontrivial=True)
+                    if toks2[-1].pos.line != want2:
+                        ctx.violation("oracle", f"the token after {tv!r} + {fol!r} (prefix {pre!r}) is on line {want2} but reported on line {toks2[-1].pos.line}",
+                                      {"op": "token-line-after", "src": src2, "token": tv})
+                    reqs.append("(scan s:" + proto.enc_str(src2) + ")")
+                    meta.append(("scan", src2, [(x.type, x.value, x.pos.line) for x in toks2]))
     ctx.count("token_cases", len(reqs))
     # ---------------- planted faults
     fillers = ["def a1 = 1", "def b1 = [1, 2]", "3 + 2", "'text'", "def f1(x) x + 1", "if 1 == 1 then 'y' else 'n'", "for q1 in [1, 2] do q1 end",
-               "def m1 = <<<'k' => 1>>>", "[z * 2 for z in [1, 2]]", "do 1; 2 end", "<<1, 2>>", "fn(x) x"]
+               "def m1 = <<<'k' => 1>>>", "[z * 2 for z in [1, 2]]", "do 1; 2 end", "<<1, 2>>", "fn(x) x", "def h2 = 0x1F", "0b11 + 0x0a", "1_000 + 2.5", "def s2 = 'two' + \"x\""]
     faults = [
         (["undefined_name"], 0, 'rt'), (["1", "/", "0"], 1, 'rt'), (["error", "'boom'"], 0, 'rt'), (["not", "5"], 0, 'rt'),
         (["[", "1", "]", "[", "7", "]"], 3, 'rt'), (["zz", "=", "1"], 0, 'rt'), (["if", "3", "then", "1"], 0, 'rt'),
@@ -77,7 +92,8 @@ def run(ctx):
         (["def", "g1", "(", "x", ")", "x", "/", "0", ";", "g1", "(", "1", ")"], 6, 'rt'),
         (["for", "w1", "in", "5", "do", "1", "end"], 0, 'rt'), (["<*", "q", "=", "1", "*>", "->", "nope", "(", ")"], 5, 'rt'),
         (["require", "NoSuchModule"], 0, 'rt'), (["[", "k", "for", "k", "in", "3", "]"], 0, 'rt'),
-        (["'abc'", "[", "9", "]"], 1, 'rt'), (["1", "<", "2", "<", "'x'", "+", "NULL", "+", "zzz"], 8, 'rt'),
+        (["'abc'", "[", "9", "]"], 1, 'rt'), (["7", ")"], 1, 'syn-last'), (["7", "end"], 1, 'syn-last'), (["[", "1", "]", "]"], 3, 'syn-last'),
+        (["do", "1", "end", "end"], 3, 'syn-last'), (["7", "8"], 1, 'syn-last'), (["x9", "=", "1", ">>"], 3, 'syn-last'), (["f1", "(", "2", ")", "'s'"], 4, 'syn-last'), (["1", "<", "2", "<", "'x'", "+", "NULL", "+", "zzz"], 8, 'rt'),
     ]
     nprog = 2500 if ctx.thorough else 500
     progs = []
@@ -91,7 +107,7 @@ def run(ctx):
             tokens += toks + [";"]
         start = len(tokens)
         tokens += ftoks
-        if kind != 'syn-eof':
+        if kind not in ('syn-eof', 'syn-last'):
             for st in after:
                 tokens += [";"] + [v if t != "string" else "'" + v + "'" for v, t in [(x.value, x.type) for x in Lexer(st, "x").scan().tokens]]
         text, lines = render_lines(tokens, rng)
@@ -120,6 +136,7 @@ def run(ctx):
                 if got[0] != 'syn':
                     ctx.violation("oracle", f"unterminated program not reported as a syntax error: {got[:2]}", rp)
                 continue
+            kind = 'syn' if kind == 'syn-last' else kind
             if got[0] != kind:
                 ctx.violation("oracle", f"planted {kind} fault `{' '.join(ftoks)}` gives {got[:3]}: {text!r}", rp)
             elif got[1] != want or got[2] != "prog.ckl":
